@@ -277,30 +277,65 @@ def rules(ck, P):
                    and _self_field(n["recv"], mapf)]
         ck.check(len(lookups) == 1 and ir.local_hid(lookups[0]["a"][0]) == keyp["hid"], "T1", b["q"] + "|lookup-key",
                  "get looks the map up with its own key parameter", "get does not look up its key parameter", ir.loc(b))
-        # the returned value is a clone of the value bound from that lookup
-        ok_ret = False
+        # Bindings that destructure the looked-up entry, in any idiom: `if let Some((v, s)) = lookup`, a match arm, or the
+        # parameter pattern of a closure passed to `.map(..)` on the lookup result.
+        val_h, stamp_h = set(), set()
+        if lookups:
+            L = lookups[0]
+            for n in ir.walk_nodes(b["body"]):
+                pats = []
+                if n.get("k") == "if" and n["c"].get("k") == "letx" and ir.contains(n["c"]["init"], lambda y: y is L):
+                    pats.append(n["c"]["pat"])
+                if n.get("k") == "match" and ir.contains(n["e"], lambda y: y is L):
+                    pats += [a["pat"] for a in n["arms"]]
+                if n.get("k") == "mcall" and n.get("name") in ("map", "and_then", "map_or", "map_or_else") and ir.contains(n["recv"], lambda y: y is L):
+                    for a in n["a"]:
+                        if a.get("k") == "closure":
+                            pats += a.get("params", [])
+                if n.get("k") == "let" and "init" in n and ir.contains(n["init"], lambda y: y is L):
+                    pats.append(n["pat"])
+                for p in pats:
+                    for x in ir.pat_binds(p):
+                        (stamp_h if "u64" in x["t"] else val_h).add(x["hid"])
+        # T1: some clone of the stored value is produced, and nothing else is wrapped into the result
+        clones = [n for n in ir.walk_nodes(b["body"]) if n.get("k") == "mcall" and n.get("name") == "clone" and ir.local_hid(n["recv"]) in val_h]
+        somes = [n for n in ir.walk_nodes(b["body"]) if n.get("k") == "call" and (n.get("q") or "").endswith("Option::Some::{Ctor#0}")]
+        somes_ok = all(ir.contains(n, lambda y: y in clones) for n in somes)
+        ok_ret = bool(clones) and somes_ok
+        # R1: evaluation order  counter += c  ...  (copy = self.counter)?  ...  *stamp = self.counter | copy
+        def order(n):
+            for c in ir.children(n):
+                yield from order(c)
+            yield n
+        events = []
+        copies = set()
+        for n in order(b["body"]):
+            if n.get("k") == "assignop" and any(_self_field(n["l"], c) for c in counter) and n.get("op") == "+=":
+                events.append(("inc", n))
+            elif n.get("k") == "let" and "init" in n and any(_self_field(n["init"], c) for c in counter) and n["pat"].get("k") == "bind":
+                copies.add(n["pat"]["hid"])
+                events.append(("copy", n["pat"]["hid"]))
+            elif n.get("k") == "assign" and ir.local_hid(n["l"]) in stamp_h:
+                src = "counter" if any(_self_field(n["r"], c) for c in counter) else (ir.local_hid(n["r"]) if ir.local_hid(n["r"]) in copies else None)
+                events.append(("stamp", src))
         stamp_ok = False
-        for n in ir.walk_nodes(b["body"]):
-            if n.get("k") in ("if", "match") and ir.contains(n.get("c") or n.get("e"), lambda y: lookups and y is lookups[0]):
-                pat = n["c"]["pat"] if n.get("k") == "if" else None
-                if pat:
-                    bs = ir.pat_binds(pat)
-                    val = [x for x in bs if "u64" not in x["t"]]
-                    st = [x for x in bs if "u64" in x["t"]]
-                    then = n["then"]
-                    tail = ir.unparen(then).get("tail") if then.get("k") == "block" else None
-                    if tail and tail.get("k") == "call" and tail.get("q", "").endswith("Option::Some::{Ctor#0}") or (tail and "Some" in (tail.get("q") or "")):
-                        a = tail["a"][0]
-                        if a.get("k") == "mcall" and a.get("name") == "clone" and val and ir.local_hid(a["recv"]) == val[0]["hid"]:
-                            ok_ret = True
-                    # stamping: `*old = self.counter` after the increment
-                    sts = ir.stmts_of(then)
-                    inc = next((i for i, s_ in enumerate(sts) if ir.contains(s_, lambda y: y.get("k") == "assignop" and any(_self_field(y["l"], c) for c in counter))), None)
-                    asg = next((i for i, s_ in enumerate(sts) if ir.contains(s_, lambda y: y.get("k") == "assign" and st and ir.local_hid(y["l"]) == st[0]["hid"]
-                                                                             and any(_self_field(y["r"], c) for c in counter))), None)
-                    stamp_ok = inc is not None and asg is not None and inc < asg
+        why = "no stamp assignment found"
+        kinds = [e[0] for e in events]
+        if "stamp" in kinds:
+            si = kinds.index("stamp")
+            src = events[si][1]
+            incs = [i for i, e in enumerate(events) if e[0] == "inc"]
+            if src == "counter":
+                stamp_ok = any(i < si for i in incs)
+                why = "the counter is not incremented before it is copied into the stamp"
+            elif src is not None:
+                ci = next(i for i, e in enumerate(events) if e == ("copy", src))
+                stamp_ok = any(i < ci for i in incs)
+                why = "the stamp value is read from the counter before (or without) the increment: hits do not get a fresh maximum"
+            else:
+                why = "the stamp is not set from the counter"
         ck.check(ok_ret, "T1", b["q"] + "|returns-stored", "get returns a clone of the value stored under the key", "get does not return the value bound from the map entry", ir.loc(b))
-        ck.check(stamp_ok, "R1", b["q"] + "|stamp", "get stamps the entry with a freshly incremented counter", "get does not stamp the entry with a fresh maximum", ir.loc(b))
+        ck.check(stamp_ok, "R1", b["q"] + "|stamp", "get stamps the entry with a freshly incremented counter", "get does not stamp the entry with a fresh maximum: " + why, ir.loc(b))
     gos = [b for b in methods if b["q"].endswith("::get_or_set")]
     if ck.anchor("T1", "get_or_set", gos, 1):
         b = gos[0]
